@@ -130,6 +130,16 @@ Section Ser.
       | _ => Raise Unmodelled
       end.
 
+    (* positional items (Array/Deque(items=[...]), Tuple): element i is serialized with items[i]; the elements past
+       the declared positions have no field definition *)
+    Definition ser_pos (sv : field -> pyval -> res pyval) :=
+      fix pos (fs : list field) (vs : list pyval) {struct fs} : res (list pyval) :=
+        match fs, vs with
+        | _, [] => Ok []
+        | [], _ :: _ => mapR ser_any vs
+        | g :: fs', x :: vs' => y <- sv g x ;; ys <- pos fs' vs' ;; Ok (y :: ys)
+        end.
+
     Fixpoint ser_val (f : field) (v : pyval) {struct f} : res pyval :=
       match f with
       | FEnumLit _ => Ok v                                  (* SerializableField: Enum.serialize *)
@@ -181,21 +191,25 @@ Section Ser.
           unless_none v
             match iter_items v with
             | Some l =>
-                r <- (fix pos (fs : list field) (vs : list pyval) {struct fs} : res (list pyval) :=
-                        match fs, vs with
-                        | _, [] => Ok []
-                        | [], _ :: _ => Raise IndexError      (* items[ind] past the declared positions *)
-                        | g :: fs', x :: vs' => y <- ser_val g x ;; ys <- pos fs' vs' ;; Ok (y :: ys)
-                        end) items l ;;
+                r <- ser_pos ser_val items l ;;
                 Ok (PList r)
             | None => Raise Unmodelled
             end
       | FSeqEach _ g _ _ => unless_none v (ser_each (ser_val g) v)
       | FSet _ (Some g) _ => unless_none v (ser_each (ser_val g) v)
       | FSeqAny _ _ _ | FSet _ None _ => unless_none v (ser_each ser_any v)
-      | FTuple _ _ =>
-          (* not a SizedCollection: the elements are serialized without their field definitions *)
-          unless_none v (ser_plain_seq v)
+      | FTuple [g] _ =>
+          (* a single item declaration is the declaration of every element *)
+          unless_none v (ser_each (ser_val g) v)
+      | FTuple items _ =>
+          (* positional, like Array(items=[...]) *)
+          unless_none v
+            match iter_items v with
+            | Some l =>
+                r <- ser_pos ser_val items l ;;
+                Ok (PList r)
+            | None => Raise Unmodelled
+            end
       | FClassRef _ =>
           unless_none v match v with PStruct _ _ => rec v | _ => ser_plain_seq v end
       | FNone => unless_none v (Raise Unmodelled)
